@@ -2,7 +2,7 @@ import json, subprocess, sys, os
 WT=os.environ.get("MUT_WT","/tmp/wt-int"); prop=sys.argv[1]; scale=sys.argv[2]
 known=[] if os.environ.get("MUT_NOKNOWN") else [e["signature"] for e in json.load(open(f"/verif/scratch/proposed_findings_{prop}.json"))["findings"]]
 def is_known(s): return any((s.startswith(k[:-1]) if k.endswith("*") else s==k) for k in known)
-for m in json.load(open(f"/verif/sensitivity/mutants_{prop}.json")):
+for m in json.load(open(f"/verif/sensitivity/mutants_{os.environ.get("MUT_FILE",prop)}.json")):
     subprocess.run(["git","-C",WT,"checkout","-q","--","."])
     p=os.path.join(WT,m["file"]); s=open(p).read(); open(p,"w").write(s.replace(m["old"],m["new"],1))
     env=dict(os.environ, VFW_REPO=WT, PYTHONPATH=f"{WT}:/verif")
